@@ -47,8 +47,10 @@ RULE = ("(a) one design per operand width pair (wa, wb) <= 4 (quick) / 6 (thorou
 IMPORTS_GATES = 'From PyRTL Require Import Pass.BasicGates.'
 IMPORTS_SPEC = 'From PyRTL Require Import Netlist.Sem Netlist.WFDefs Netlist.SpecHarness.'
 IMPORTS_SYNTH = 'From PyRTL Require Import Netlist.Sem Netlist.WFDefs Pass.Synth Pass.SynthHarness.'
+IMPORTS_PREM = ('From PyRTL Require Import Netlist.Sem Netlist.Sanity Gen.SanityNet Pass.Synth Pass.Flatten '
+                'Pass.SynthSanityDefs.')
 COQ_TARGETS = ['theories/Pass/BasicGates.vo', 'theories/Netlist/SpecHarness.vo',
-               'theories/Pass/SynthHarness.vo']
+               'theories/Pass/SynthHarness.vo', 'theories/Pass/SynthSanityDefs.vo']
 TRUSTED = ['Pass/BasicGates.v control skeletons (ripple / lt accumulation / Wallace passes / tree_reduce): '
            'guarded by the textual-identity gate of py/genfrag_C03.py and tied behaviourally on every run; all '
            'gate EXPRESSIONS are regenerated from the source (Gen/SynthGates.v, Gen/SynthFrags.v)',
@@ -62,9 +64,13 @@ TRUSTED = ['Pass/BasicGates.v control skeletons (ripple / lt accumulation / Wall
            'Pass/Flatten.v (gate groups -> Syntax.netlist) is a definition used only inside theorems/examples',
            'integer arithmetic in py/checks/C03.py expected() as the specification of each word-level op in '
            'part (a); Netlist/Sem.v elsewhere']
-ASSUMPTIONS = ['arguments of two-operand nets have equal bitwidth >= 1, mux branches equal bitwidth, select '
-               'indices in range (sanity_check_net enforces it; boolean premise synth_okb of the theorems, '
-               'evaluated to true on every dumped design)',
+ASSUMPTIONS = ['bitwidths are >= 1 (WireVector.__init__ enforces it; boolean premise widths_posb, evaluated on every '
+               'dumped design).  The former assumption "arguments of two-operand nets have equal bitwidth, mux '
+               'branches equal, select indices in range, ..." (synth_okb) is now a THEOREM: '
+               'C03_sanity_check_establishes_premises derives net_synth_ok and arity_ok from the `if ...: raise` list '
+               'of Block.sanity_check_net regenerated from core.py (Gen/SanityNet.v), which synthesize() runs first; '
+               'the `_sanity_checked` theorems take that regenerated check as their premise, and it is evaluated '
+               '(together with ids_okb) on every dumped design',
                'default_value = 0 (the property speaks of reset/initial values and memory contents only)',
                'ROM contents are tabulated at dump time',
                'the synthesized block is modelled as per-net gate-expression TREES (the carries the real block '
@@ -78,7 +84,7 @@ ASSUMPTIONS = ['arguments of two-operand nets have equal bitwidth >= 1, mux bran
                'Coq shapeb is evaluated on real blocks of <= %d nets (it is quadratic); larger blocks are checked '
                'by its Python mirror, and the two are compared wherever both run']
 
-SHAPE_MAX_NETS = 1500   # Coq shapeb is quadratic; larger blocks are checked by its Python mirror only
+SHAPE_MAX_NETS = 1000   # Coq shapeb is quadratic; larger blocks are checked by its Python mirror only
 ASSUMPTIONS[-1] = ASSUMPTIONS[-1] % SHAPE_MAX_NETS
 OPS = ['add', 'sub', 'mul', 'lt', 'gt', 'eq']
 OPCODE = {o: i for i, o in enumerate(OPS)}
@@ -262,6 +268,25 @@ def structural_tie(ctx, tag, items):
                 return
 
 
+def check_premises(ctx, tag, items):
+    """the boolean premises of the `_sanity_checked` theorems on every dumped design: bitwidths >= 1, no raise of
+    the REGENERATED Block.sanity_check_net (Gen/SanityNet.v) fires on any net, wire ids increasing (ids_okb)"""
+    if not items:
+        return
+    exprs = ['(fun nl => sanity_prem_case nl ++ [b2z (ids_okb nl)]) %s' % dump.coq() for _, dump, _ in items]
+    try:
+        res = ctx.coq_eval(exprs, IMPORTS_PREM, tag=tag, shard=8, jobs=12)
+    except Exception as e:
+        ctx.model_mismatch('the premises (Gen/SanityNet.v check / widths_posb / ids_okb) could not be evaluated: %s'
+                           % str(e)[-500:], {})
+        return
+    for (label, dump, rep), r in zip(items, res):
+        ctx.count('theorem_premises', 'widths_posb,sanity_nets_okb,ids_okb=%s' % r)
+        if list(r) != [1, 1, 1]:
+            ctx.model_mismatch('premises of the C03 theorems [widths_posb, sanity_nets_okb, ids_okb] = %r on a design that the '
+                               'real sanity_check accepted (%s)' % (r, label), rep)
+
+
 def part_a(ctx, only=None):
     N = 4 if ctx.tier == 'quick' else 6
     if only:
@@ -418,7 +443,7 @@ def part_a_truncated(ctx):
         exprs.append('synth_case %s %s' % (base, outids))
         # the flattened model netlist under Sem.run (gate trees: only the small widths are executable)
         exprs.append('flat_case %s %s %s' % (dump.coq(), dump.inputs(inputs), outids) if n <= 2 else '[[1; 1; 1]]')
-        cases.append(dict(n=n, outs=outs, inputs=inputs, got=got_rows, names=dump.names(), merge=merge))
+        cases.append(dict(n=n, outs=outs, inputs=inputs, got=got_rows, names=dump.names(), merge=merge, dump=dump))
         if n <= (2 if ctx.tier == 'quick' else 3):
             souts = [o for o, _, _ in outs]
             try:
@@ -466,6 +491,7 @@ def part_a_truncated(ctx):
                                        'destination (args %d bits): %s model=%d real=%d' % (tag, wd, c['n'], vals, mod, got), rep)
         ctx.count('truncated_dest_outputs', 'n=%d' % c['n'], len(c['outs']))
     structural_tie(ctx, 'c03structt', struct_items)
+    check_premises(ctx, 'c03premt', [('truncated n=%d' % c['n'], c['dump'], {}) for c in cases])
 
 
 # ----------------------------------------------------------------------------- (b)
@@ -1003,6 +1029,7 @@ def part_b(ctx, only=None):
     spec_exprs, spec_cases = [], []
     shape_exprs, shape_cases = [], []
     model_exprs, model_cases = [], []
+    prem_items = []
     for i in (only if only is not None else [-(k + 1) for k in range(N_DIRECTED)] + list(range(n))):
         d, regmap, memmap, inputs = build_case(ctx, i)
         ctx.count('design_kind', 'random' if i >= 0 else DIRECTED_KIND[min((-i - 1) // 2, 7)])
@@ -1024,6 +1051,7 @@ def part_b(ctx, only=None):
         orig_expr = '%s 0 %s %s %s' % (dump.coq(), dump.regmap(regmap), dump.memmap(memmap), dump.inputs(inputs))
         probes = [(m.id, a_) for m in d.mems for a_ in range(1 << m.addrwidth)]
         spec_exprs.append('spec_case %s %s' % (orig_expr, nlx.pairs(probes)))
+        prem_items.append(('design %d' % i, dump, base_rep))
         spec_cases.append(dict(i=i, out_cols=out_cols, t_orig=t_orig, outnames=outnames, rep=base_rep,
                                mem_final=[v for tab in d._mem_obs['final'] for v in tab]))
         # the model is asked for EVERY wire of the original design (re-assembled from the model's bits)
@@ -1138,6 +1166,7 @@ def part_b(ctx, only=None):
                                        'wire %s of the original design is not spelled by its synthesized bits at cycle %d: '
                                        'expected %s, bits give %s' % (bad[1], bad[0], bad[2], bad[3]), rep)
 
+    check_premises(ctx, 'c03prem', prem_items)
     # ---- reference semantics on the original dump (the oracle)
     spec_results = ctx.coq_eval(spec_exprs, IMPORTS_SPEC, tag='c03spec', shard=6, jobs=12)
     for c, res in zip(spec_cases, spec_results):
@@ -1183,7 +1212,7 @@ def part_b(ctx, only=None):
                 ctx.model_mismatch('Coq shapeb and its Python mirror disagree on design %d' % c['i'], c['rep'])
 
 
-COMPILED_MAX_NETS = 1200     # gcc time grows with the synthesized block; larger blocks use Simulation + FastSimulation
+COMPILED_MAX_NETS = 800     # gcc time grows with the synthesized block; larger blocks use Simulation + FastSimulation
 
 
 def testbench_on(simclass, d, post, merge, regmap, memmap, inputs, memkey=lambda m: m):
@@ -1210,7 +1239,7 @@ def channels(ctx, d, post, merge, uwb, regmap, memmap, inputs, t_orig, outnames,
     """every simulator and observation channel a testbench written against the original could use"""
     want = d._mem_obs
     sims = [('Simulation', pyrtl.Simulation)] if d.mems else []     # (Outputs under Simulation were compared already)
-    if directed or merge != uwb:
+    if directed or (uwb and not merge):
         sims.append(('FastSimulation', pyrtl.FastSimulation))
     if len(post.logic) <= COMPILED_MAX_NETS and (merge and not uwb or (directed and not merge and uwb)):
         sims.append(('CompiledSimulation', pyrtl.CompiledSimulation))
